@@ -4,7 +4,11 @@ Every rule decides on *values*: the functions of pyyeti/expmint.py and pyyeti/ss
 c07_interp.py (constant folding, helpers/closures/methods/properties followed, module-level tables resolved, loops over literal sequences
 unrolled) in the scalar image of the matrix algebra (every matrix is a function of the one matrix A), in *regimes* chosen by the rule
 (norm estimates just below / above a threshold, order 0 / 1, B given or not, structure, method name).  No rule looks at the spelling of the
-source: which locals exist, in which order the arms are written, whether a helper was extracted or a table moved to module level.
+source: which locals exist, in which order the arms are written, whether a helper was extracted or a table moved to module level, how the
+bounds of a slice are written (a block is the set of rows / columns selected in an array of known shape), under which alias a library is
+imported, or how the private helpers of expmint (_geti2, _solve_P_Q_2) name and order their parameters (they are evaluated as expmint
+reaches them).  Conventions that are read from the callee's own signature: _expm_SS(A, ssA, order), pade13_scaled_i(s, h), pade13_scaled(s),
+the (U, V, P, Q) order of the table methods' results.
 """
 from __future__ import annotations
 
@@ -396,31 +400,29 @@ def r1_pade_tables(ctx):
             _check_int(ctx, f"{cls}.pade13_scaled_i", fn, Pn, Q2, 13, 1, h)
         except Unsupported as e:
             ctx.error(f"{cls}.pade13_scaled_i", fn, str(e))
-    # _geti2: which table does each order passed by expmint reach, and is it the approximant of the second integral?
-    fn = ctx.src.func(EXPM, "_geti2")
-    E, I1 = F.sym("E"), F.sym("Int")
+    # the second integral, evaluated the way expmint reaches it (whatever the helper _geti2's parameters are called or ordered): on the
+    # route of order m it must be solved from the [m/m] approximant of its series, scaled by h^2
+    efn = ctx.src.func(EXPM, "expmint")
     for v in (3, 5, 7, 9):
-        it2 = Interp(ctx, EXPM, hook=scalar_hook(), oracle=plain)
-        H2 = it2.instantiate(cls, [x], {"structure": None})
-        ret = it2.call("_geti2", [H2, E, I1, h, F.const(v)])
-        leaf = _last(it2.calls, *LEAF_SOLVES)
-        if I.is_crash(ret):
-            ctx.fail(f"_geti2: order {v} (as passed by expmint) selects the degree-{v} table", fn, {"evaluation raises": ret.why})
+        r = Run(ctx, "expmint", THETA[v] * (1 - EPS), geti2=True, follow_geti2=True)
+        title = f"expmint (route of order {v}): the second integral is solved from the Pade table of the route's degree"
+        if _aborted(ctx, title, efn, r.ret):
             continue
-        if leaf is None or len(leaf.pos) < 2 or is_unknown(leaf.pos[0]) or is_unknown(leaf.pos[1]) or isinstance(ret, Raised):
-            ctx.error(f"_geti2 for order {v}", fn, f"no Pade solve reached: {ret!r}"[:300])
+        t2 = r.i2_table()
+        if r.order is None or t2 is None or isinstance(r.ret, Raised):
+            ctx.error(f"expmint (route of order {v}): second integral", efn, f"no Pade solve reached: {r.ret!r}"[:300])
             continue
-        Q, P = to_rat(leaf.pos[0]), to_rat(leaf.pos[1])
+        P, Q, leaf = t2
         k = _degree(Q)
-        ok = k == v
-        ctx.check(ok, f"_geti2: order {v} (as passed by expmint) selects the degree-{v} table", leaf.node, None if ok else {"selected degree": k})
-        _check_int(ctx, f"_geti2[degree {k} table]", leaf.node, P, Q, k, 2, h * h)
-    it2 = Interp(ctx, EXPM, hook=scalar_hook(), oracle=call_oracle({"isspmatrix": False, "np.allclose": True}))
-    H2 = it2.instantiate(cls, [x], {"structure": None})
-    ret = it2.call("_geti2", [H2, E, I1, h, F.const(13)])
-    leaf = _last(it2.calls, *LEAF_SOLVES)
-    ok = leaf is None and not isinstance(ret, Raised) and not is_unknown(ret)
-    ctx.check(ok, "_geti2: order 13 selects no Pade table (direct solve / power series)", fn, None if ok else repr(leaf or ret)[:300])
+        ok = k == r.order
+        ctx.check(ok, title, leaf.node, None if ok else {"degree of the table": k, "order of the route": r.order})
+        _check_int(ctx, f"second integral [degree {k} table]", leaf.node, P, Q, k, 2, h * h)
+    r = Run(ctx, "expmint", Fraction(10), geti2=True, follow_geti2=True)
+    lv = r.leaves()
+    if not _aborted(ctx, "expmint (order 13): the second integral uses no Pade table (direct solve / power series)", efn, r.ret):
+        ok = len(lv) == 1 and isinstance(r.ret, tuple) and len(r.ret) == 3 and not is_unknown(r.ret[2])
+        verdict(ctx, ok, "expmint (order 13): the second integral uses no Pade table (direct solve / power series)", efn,
+                repr(lv[1:] or r.ret)[:300], [r.ret])
     # _ExpmPadeHelper_SS exp tables (block structure abstracted to the scalar homomorphism)
     cls = "_ExpmPadeHelper_SS"
     it = Interp(ctx, EXPM, hook=scalar_hook(), oracle=plain)
@@ -448,39 +450,41 @@ def r1_pade_tables(ctx):
 
 # ------------------------------------------------------------------------------------------------------------ R2
 def _double_rounding(ctx):
-    """every Pade literal is represented by a double within 2^-53 relative of its decimal text"""
+    """every floating literal of the module is represented by a double within 2^-53 relative of its decimal text (wherever it stands:
+    in a tuple or a list, at module level, written out in an expression)"""
     m = ctx.src.mod(EXPM)
     n = bad = 0
-    for node in ast.walk(m.tree):
-        if isinstance(node, ast.Tuple) and len(node.elts) >= 4 and all(
-                isinstance(e, ast.Constant) or (isinstance(e, ast.UnaryOp) and isinstance(e.operand, ast.Constant))
-                for e in node.elts):
-            for e in node.elts:
-                c = e.operand if isinstance(e, ast.UnaryOp) else e
-                if isinstance(c.value, float):
-                    exact = const_from_node(c, ctx.src)
-                    dbl = Fraction(c.value)
-                    n += 1
-                    if exact and abs(dbl - exact) / abs(exact) > Fraction(1, 2 ** 53):
-                        bad += 1
+    for c in ast.walk(m.tree):
+        if isinstance(c, ast.Constant) and isinstance(c.value, float):
+            exact = const_from_node(c, ctx.src)
+            n += 1
+            if c.value != c.value or c.value in (float("inf"), float("-inf")):
+                bad += 1
+                continue
+            dbl = Fraction(c.value)
+            if exact and abs(dbl - exact) / abs(exact) > Fraction(1, 2 ** 53):
+                bad += 1
     return n, bad
 
 
 class Run:
     """one evaluation of expmint / _expm_SS in a regime: every norm estimate equals t, _ell is 0 below order 13"""
 
-    def __init__(self, ctx, q, t, geti2=True, triangular=False, sparse=False, follow_geti2=False, ell=None):
-        """t: the value of every norm estimate, or {'d4': .., 'd6': .., 'd8': .., 'd10': ..}; ell: {order: value of mf._ell}, default 0"""
+    def __init__(self, ctx, q, t, geti2=True, triangular=False, sparse=False, follow_geti2=False, ell=None, allclose=True, converge=None):
+        """t: the value of every norm estimate, or {'d4': .., 'd6': .., 'd8': .., 'd10': ..}; ell: {order: value of mf._ell}, default 0;
+        follow_geti2: evaluate the second integral too (else it is the symbol I2); allclose: outcome of its A^-1 consistency test;
+        converge: number of terms after which a power-series loop's convergence test fails"""
         self.q = q
         x, h = F.sym("x"), F.sym("h")
         self.x, self.h = x, h
 
         def extra(it, name, pos, kw, node):
             if name == "_geti2" and not follow_geti2:
-                return F.sym("I2")
+                return F.sym("I2")      # (a shortcut only: no obligation depends on the second integral being left unevaluated)
             return NotImplemented
 
-        orc = call_oracle({"isspmatrix": sparse, "isinstance": False, "mf._is_upper_triangular": triangular, "np.allclose": True})
+        table = {"isspmatrix": sparse, "isinstance": False, "mf._is_upper_triangular": triangular, "np.allclose": allclose}
+        orc = call_oracle(table) if converge is None else Converge(converge, table)
         self.it = it = Interp(ctx, EXPM, hook=scalar_hook(extra, d=t, ell=dict(ell or {})), oracle=orc)
         if q == "expmint":
             self.ret = it.call("expmint", [x, h, geti2])
@@ -494,6 +498,20 @@ class Run:
             U, V = to_rat(self.pq.pos[0]), to_rat(self.pq.pos[1])
             if not is_unknown(U) and not is_unknown(V):
                 self.order = _degree(V - U)
+
+    def leaves(self):
+        """the linear solves of the integrals, in order: the first is the integral's own (solve(Q, P) of the route's table), any further
+        one belongs to the second integral"""
+        return [c for c in self.it.calls if c.name in LEAF_SOLVES and len(c.pos) >= 2]
+
+    def i2_table(self):
+        """(P, Q) of the Pade table the second integral was solved from, as functions of x = A (the helper works on A h: x -> x / h),
+        or None when no such solve was reached"""
+        lv = self.leaves()
+        if len(lv) < 2 or is_unknown(to_rat(lv[-1].pos[0])) or is_unknown(to_rat(lv[-1].pos[1])):
+            return None
+        sub = {"x": self.x / self.h}
+        return to_rat(lv[-1].pos[1]).subs(sub), to_rat(lv[-1].pos[0]).subs(sub), lv[-1]
 
     def table_call(self):
         """the call whose result went into the exp solve: the Pade table method"""
@@ -520,8 +538,9 @@ def r2_thresholds(ctx):
     """regimes of expmint / _expm_SS: a norm estimate just below theta_m (with _ell = 0) uses the order-m table and tells _geti2 that order,
     just above it does not; the scaling power of the order-13 route; getEPQ's switch"""
     n, bad = _double_rounding(ctx)
-    ctx.check(bad == 0 and n >= 150, f"all {n} Pade-table literals are within 2^-53 relative of their decimal text", EXPM + ":1",
-              {"literals": n, "badly rounded": bad})
+    # (how many literals there are, and whether they stand in tuples, is spelling: the tables themselves are checked by R1)
+    ctx.check(bad == 0, "all floating literals are within 2^-53 relative of their decimal text", EXPM + ":1",
+              {"literals": n, "badly rounded": bad}, nontrivial=False)
     for q in ("expmint", "_expm_SS"):
         fn = ctx.src.func(EXPM, q)
         for m in (3, 5, 7, 9):
@@ -548,11 +567,17 @@ def r2_thresholds(ctx):
                     ells[-1][2] if ells else where, {"last _ell consulted": repr(ells[-1][:2])[:200] if ells else None,
                                                      "order used when it is 1": blocked.order}, [e_[:2] for e_ in ells[-1:]])
             if q == "expmint":
-                g = _last(lo.it.calls, "_geti2")
-                ga = g.ordered() if g is not None else []
-                got = ga[4] if len(ga) >= 5 else None
-                ok = got is not None and I.is_const(got) and I.cval(got) == m
-                verdict(ctx, ok, f"{q}: the order-{m} route tells _geti2 pade={m}", g.node if g is not None else where, repr(got), [got])
+                # the order the route tells the second-integral helper is the order of the table that helper then uses
+                lo2 = Run(ctx, q, THETA[m] * (1 - EPS), follow_geti2=True)
+                t2 = lo2.i2_table() if not isinstance(lo2.ret, Raised) and not I.is_crash(lo2.ret) else None
+                title = f"{q}: on the order-{m} route the second integral is computed for pade={m} (its degree-{m} table)"
+                if _aborted(ctx, title, fn, lo2.ret):
+                    pass
+                elif t2 is None:
+                    ctx.error(title, where, f"no Pade solve of the second integral reached: {lo2.ret!r}"[:300])
+                else:
+                    k = _degree(t2[1])
+                    ctx.check(k == m, title, t2[2].node, None if k == m else {"degree of the table used": k})
         # every route is bounded by both of its norm estimates (eta = max of the pair): d_k ~ ||A^k||^(1/k)
         small = THETA[3] * (1 - EPS)
         mid = THETA[7] * (1 - EPS)
@@ -613,18 +638,35 @@ def r2_thresholds(ctx):
             small = regime == "below"
             return {"Lt": small, "LtE": small, "Gt": not small, "GtE": not small}.get(op)
 
+        def norm1(v):
+            # a norm is homogeneous and the step is positive: ||A h|| = h ||A||
+            if isinstance(v, F.Rat) and not is_unknown(v) and v.d.is_const() and len(v.n.t) == 1 and (v / A).equals(h ** _degree(v, "h")):
+                return (v / A) * F.fn("norm1", A)
+            return F.fn("norm1", v)
+
         def extra(it, name, pos, kw, node):
             if name in ("getEPQ1", "getEPQ2"):
                 return F.sym(name + "()")
-            if name in ("np.linalg.norm", "la.norm", "scipy.linalg.norm", "norm") and pos:
+            if name in ("np.linalg.norm", "la.norm", "scipy.linalg.norm", "norm") and (pos or "x" in kw or "a" in kw):
+                x_ = pos[0] if pos else kw.get("x", kw.get("a"))
                 o = pos[1] if len(pos) > 1 else kw.get("ord")
-                if len(pos) <= 2 and set(kw) <= {"ord"} and o is not None and I.is_const(o) and I.cval(o) == 1:
-                    v = to_rat(pos[0])
-                    # a norm is homogeneous and the step is positive: ||A h|| = h ||A||
-                    if isinstance(v, F.Rat) and not is_unknown(v) and v.d.is_const() and len(v.n.t) == 1 and (v / A).equals(h ** _degree(v, "h")):
-                        return (v / A) * F.fn("norm1", A)
-                    return F.fn("norm1", v)
+                if len(pos) <= 2 and set(kw) <= {"ord", "x", "a"} and o is not None and I.is_const(o) and I.cval(o) == 1:
+                    return norm1(to_rat(x_))
                 return F.fn("some-other-norm", *[to_rat(p_) for p_ in pos if not is_unknown(to_rat(p_))])
+            # the 1-norm written out: the largest absolute column sum,  abs(X).sum(axis=0).max()  in any of numpy's spellings
+            if name in (".max", "np.max", "np.amax", "max") and len(pos) == 1 and not kw and isinstance(pos[0], F.Rat):
+                p1 = fn_parts(pos[0])
+                if p1 is not None and p1[0] in ("call:.sum", "call:np.sum") and 1 <= len(p1[1]) <= 2 and isinstance(p1[1][0], F.Rat):
+                    ax = p1[1][1] if len(p1[1]) == 2 else None
+                    pa = fn_parts(ax) if isinstance(ax, F.Rat) else None
+                    if pa is not None and pa[0] == "kw:axis":
+                        ax = pa[1][0]
+                    p2 = fn_parts(p1[1][0])
+                    if isinstance(ax, F.Rat) and ax.is_const() and ax.const_value() == 0 and p2 is not None and len(p2[1]) == 1 \
+                            and p2[0] in ("abs", "call:np.abs", "call:np.absolute", "call:np.fabs", "call:.__abs__"):
+                        return norm1(to_rat(p2[1][0]))
+                    if isinstance(ax, F.Rat) and ax.is_const() and p2 is not None and len(p2[1]) == 1 and isinstance(p2[1][0], F.Rat):
+                        return F.fn("some-other-norm", p2[1][0], ax)          # row sums: the infinity norm
             return NotImplemented
 
         it = Interp(ctx, EXPM, hook=scalar_hook(extra), oracle=call_oracle({}, other))
@@ -714,14 +756,19 @@ def r3_squaring(ctx):
                 lp.init.setdefault(nE, r.ret[0])
                 lp.init.setdefault(nI, r.ret[1])
             U, V, P, Q = (to_rat(t) for t in tc.result)
-            g = _last(r.it.calls, "_geti2")
-            ga = g.ordered() if g is not None else []
+            # the second integral of this route, evaluated as expmint reaches it (direct arm: the A^-1 formula on the *squared* E and the
+            # step h), whatever the parameters of the helper are called and however they are ordered
+            r2 = Run(ctx, "expmint", Fraction(10), geti2=True, follow_geti2=True, allclose=True)
+            X = x * h
+            i2 = r2.ret[2] if isinstance(r2.ret, tuple) and len(r2.ret) == 3 else None
+            e2 = r2.ret[0] if i2 is not None else None
             ok = I.same_value(lp.init.get(nE), (V + U) / (V - U)) and I.same_value(lp.init.get(nI), P / Q) \
-                and len(ga) >= 5 and I.same_value(tuple(ga[1:5]), (r.ret[0], r.ret[1], h, F.const(13))) \
-                and isinstance(ga[0], Obj) and I.same_value(r.ret[2], F.sym("I2"))
-            verdict(ctx, ok, "expmint (order 13): squaring starts from E = solve(V-U, V+U), I = solve(Q, P); I2 = _geti2(H, E, I, h, 13) on the squared E, I",
-                    lp.node, {"E0": repr(lp.init.get(nE))[:120], "I0": repr(lp.init.get(nI))[:120], "_geti2 arguments": repr(ga[1:5])[:200]},
-                    [lp.init.get(nE), lp.init.get(nI), U, V, P, Q] + ga[1:5])
+                and isinstance(i2, F.Rat) and isinstance(e2, F.Rat) and I.same_value(e2, r.ret[0]) \
+                and I.same_value(i2, h * h * (X * e2 - e2 + 1) / (X * X))
+            verdict(ctx, ok, "expmint (order 13): squaring starts from E = solve(V-U, V+U), I = solve(Q, P); I2 is computed from the squared E and "
+                             "the step: h^2 (A h E - E + 1)/(A h)^2 when A is invertible",
+                    lp.node, {"E0": repr(lp.init.get(nE))[:120], "I0": repr(lp.init.get(nI))[:120], "I2": repr(i2)[:200]},
+                    [lp.init.get(nE), lp.init.get(nI), U, V, P, Q, r2.ret])
     # the helper is built on A*h
     init = _last(r.it.calls, "_ExpmIntPadeHelper.__init__")
     ia = init.ordered() if init is not None else []
@@ -739,30 +786,39 @@ def r3_squaring(ctx):
                 continue
             U, V, P, Q = (to_rat(t) for t in tc.result)
             if geti2:
-                g = _last(r.it.calls, "_geti2")
-                ga = g.ordered() if g is not None else []
+                # I2 as expmint computes it: h^2 times a function of A h alone (the step reaches the second-integral helper)
+                r2 = Run(ctx, "expmint", THETA[m] * (1 - EPS), geti2=True, follow_geti2=True)
+                i2 = r2.ret[2] if isinstance(r2.ret, tuple) and len(r2.ret) == 3 else None
+                scaled = False
+                if isinstance(i2, F.Rat) and not is_unknown(i2):
+                    try:
+                        g = i2.subs({"x": x / h}) / (h * h)
+                        scaled = g.equals(g.subs({"h": F.const(1)}))          # g(x, h) = g(x, 1): no dependence on h is left
+                    except Unsupported:
+                        scaled = False
                 ok = len(r.ret) == 3 and I.same_value(r.ret[0], (V + U) / (V - U)) and I.same_value(r.ret[1], P / Q) \
-                    and I.same_value(r.ret[2], F.sym("I2")) and len(ga) >= 5 and isinstance(ga[0], Obj) \
-                    and I.same_value(tuple(ga[1:4]), (r.ret[0], r.ret[1], h))
-                verdict(ctx, ok, f"expmint (order {m}): E = solve(V-U, V+U), I = solve(Q, P), I2 = _geti2(H, E, I, h, pade)", tc.node,
-                        repr(r.ret)[:300], [r.ret, U, V, P, Q] + ga[1:4])
+                    and scaled
+                verdict(ctx, ok, f"expmint (order {m}): E = solve(V-U, V+U), I = solve(Q, P), I2 = h^2 f(A h) from the second-integral helper", tc.node,
+                        {"returned": repr(r.ret)[:300], "I2": repr(i2)[:200]}, [r.ret, U, V, P, Q, r2.ret])
             else:
-                ok = len(r.ret) == 2 and I.same_value(r.ret[0], (V + U) / (V - U)) and I.same_value(r.ret[1], P / Q) \
-                    and _last(r.it.calls, "_geti2") is None
+                ok = len(r.ret) == 2 and I.same_value(r.ret[0], (V + U) / (V - U)) and I.same_value(r.ret[1], P / Q)
                 verdict(ctx, ok, f"expmint (order {m}, geti2 false): returns (E, I) only", tc.node, repr(r.ret)[:300], [r.ret, U, V, P, Q])
-    # _solve_P_Q_2 solves Q X = P whatever the structure
-    sp = ctx.src.func(EXPM, "_solve_P_Q_2")
-    P, Q = F.sym("P"), F.sym("Q")
-    for label, sparse, structure, leafname in (("sparse", True, None, "mf.spsolve"), ("general", False, None, "mf.solve"),
-                                               ("upper triangular", False, Ref("mf.UPPER_TRIANGULAR"), "mf.solve_triangular")):
-        it = Interp(ctx, EXPM, hook=scalar_hook(), oracle=call_oracle({"isspmatrix": sparse}))
-        ret = it.call("_solve_P_Q_2", [P, Q], {"structure": structure})
-        leaf = _last(it.calls, *LEAF_SOLVES)
-        if _aborted(ctx, f"_solve_P_Q_2 solves Q X = P ({label} matrices: {leafname}(Q, P))", sp, ret):
+    # the integral is the solution of Q X = P whatever the structure of the matrix, by the solver made for that structure (evaluated as
+    # expmint reaches it: the private helper may be renamed, inlined, or take its arguments in another order)
+    for label, sparse, triangular, leafname in (("sparse", True, False, "mf.spsolve"), ("general", False, False, "mf.solve"),
+                                                ("upper triangular", False, True, "mf.solve_triangular")):
+        title = f"expmint ({label} matrices): the integral solves Q X = P with {leafname}(Q, P)"
+        r = Run(ctx, "expmint", THETA[3] * (1 - EPS), geti2=False, sparse=sparse, triangular=triangular)
+        tc = r.table_call()
+        if _aborted(ctx, title, fn, r.ret):
             continue
-        ok = isinstance(ret, F.Rat) and ret.equals(P / Q) and leaf is not None and leaf.name == leafname
-        verdict(ctx, ok, f"_solve_P_Q_2 solves Q X = P ({label} matrices: {leafname}(Q, P))", leaf.node if leaf is not None else sp,
-                repr(ret)[:200], [ret])
+        lv = r.leaves()
+        if tc is None or not isinstance(r.ret, tuple) or len(r.ret) < 2:
+            ctx.error(title, fn, f"could not evaluate: {r.ret!r}"[:300])
+            continue
+        U, V, P, Q = (to_rat(t) for t in tc.result)
+        ok = I.same_value(r.ret[1], P / Q) and len(lv) == 1 and lv[0].name == leafname
+        verdict(ctx, ok, title, lv[0].node if lv else fn, {"I": repr(r.ret[1])[:200], "solver": [c.name for c in lv]}, [r.ret[1], P, Q])
     # _expm_SS: orders 3..9 return solve(V-U, V+U) of the table; squaring of the order-13 result
     fn = ctx.src.func(EXPM, "_expm_SS")
     for m in (3, 5, 7, 9):
@@ -808,16 +864,43 @@ def _ordered_hook(extra=None):
             r = extra(it, name, pos, kw, node)
             if r is not NotImplemented:
                 return r
-        if name in (".dot", "np.dot") and len(pos) == 2:
+        if name in (".dot", "np.dot", "np.matmul", "binop:MatMult", "operator.matmul", ".__matmul__") and len(pos) == 2 and not kw \
+                and all(isinstance(p_, F.Rat) for p_ in pos):
             a, b = to_rat(pos[0]), to_rat(pos[1])
             if is_unknown(a) or is_unknown(b):
                 return a if is_unknown(a) else b
             return F.fn("dot", a, b)
-        if name in ("np.asarray", "np.atleast_2d") and pos:
-            return pos[0]
+        if name in ("np.asarray", "np.atleast_2d", "np.transpose", "np.asanyarray", "np.ascontiguousarray") and pos:
+            return pos[0]           # (.T is the identity for this evaluator, so is np.transpose)
+        if name in ("np.array", "np.copy") and len(pos) == 1 and set(kw) <= {"copy", "order"} and isinstance(pos[0], F.Rat):
+            return clone(pos[0])
         return NotImplemented
 
     return hook
+
+
+def _shape_call(it, name, pos, kw, default=None):
+    """every way of asking an array for its shape: X.shape, X.ndim, len(X), np.shape(X), np.ndim(X), np.size(X, axis); `default`: the
+    shape of a value the evaluator has no shape for.  NotImplemented when the call is none of these or the shape is not known."""
+    if name == "getattr" and len(pos) == 2 and pos[1] in ("shape", "ndim") and isinstance(pos[0], F.Rat) and not pos[0].is_const():
+        what, x = pos[1], pos[0]
+    elif name in ("len", "np.shape", "np.ndim", "np.size") and pos and isinstance(pos[0], F.Rat) and not pos[0].is_const():
+        what, x = name.split(".")[-1], pos[0]
+    else:
+        return NotImplemented
+    sh = it.shape(x) or default
+    if sh is None:
+        return NotImplemented
+    if what == "shape":
+        return sh
+    if what == "ndim":
+        return F.const(len(sh))
+    if what == "len":
+        return sh[0] if sh else NotImplemented
+    ax = pos[1] if len(pos) > 1 else kw.get("axis")
+    if ax is not None and I.is_const(ax) and I.cval(ax).denominator == 1 and -len(sh) <= int(I.cval(ax)) < len(sh):
+        return sh[int(I.cval(ax))]
+    return NotImplemented
 
 
 DIMS = ("n", "m", "i", "r")
@@ -856,14 +939,15 @@ def _int_hook(extra=None):
                 return F.fn("op:TrueDiv", a, b)
             if b.is_const() and b.const_value() > 0 and not a.is_const():
                 k = int(b.const_value())
-                if op == "FloorDiv" and _divisible(a, k):
-                    return a / k
-                if op == "Mod" and _divisible(a, k):
-                    return F.const(0)
-                if op == "BitAnd" and k & (k + 1) == 0 and _divisible(a, k + 1):        # a & (2^j - 1) with 2^j | a
-                    return F.const(0)
-                if op == "RShift" and _divisible(a, 2 ** k):
-                    return a / (2 ** k)
+                c0 = int(a.n.t.get((), 0))              # a = (multiples of the divisor) + c0 : floor and remainder come from c0 alone
+                if op == "FloorDiv" and _divisible(a - c0, k):
+                    return (a - c0) / k + c0 // k
+                if op == "Mod" and _divisible(a - c0, k):
+                    return F.const(c0 % k)
+                if op == "BitAnd" and k & (k + 1) == 0 and _divisible(a - c0, k + 1):   # a & (2^j - 1) = a mod 2^j
+                    return F.const(c0 % (k + 1))
+                if op == "RShift" and _divisible(a - c0, 2 ** k):
+                    return (a - c0) / (2 ** k) + c0 // (2 ** k)
                 if op == "LShift":
                     return a * (2 ** k)
         if name in ("int", "np.int64", "np.intp", "operator.index") and len(pos) == 1 and isinstance(pos[0], F.Rat):
@@ -884,15 +968,12 @@ def _square_shapes(extra, n):
     shape its index selects"""
 
     def shape_of(v):
-        return (n, n) if isinstance(v, F.Rat) and not v.is_const() and I.fn_parts(v) != ("idx",) else None
+        return (n, n) if isinstance(v, F.Rat) and not v.is_const() else None
 
     def hook(it, name, pos, kw, node):
-        if name == "getattr" and pos[1] in ("shape", "ndim") and isinstance(pos[0], F.Rat) and not pos[0].is_const():
-            sh = it.shape(pos[0]) or (n, n)
-            return sh if pos[1] == "shape" else F.const(len(sh))
-        if name == "len" and len(pos) == 1 and isinstance(pos[0], F.Rat) and not pos[0].is_const():
-            sh = it.shape(pos[0]) or (n, n)
-            return sh[0] if sh else NotImplemented
+        r = _shape_call(it, name, pos, kw, (clone(n), clone(n)))
+        if r is not NotImplemented:
+            return r
         return extra(it, name, pos, kw, node)
 
     return hook, shape_of
@@ -912,6 +993,10 @@ class Converge:
         if p[0].startswith("call:") and p[0][5:] in self.table:
             return self.table[p[0][5:]]
         if p[0].startswith("cmp:") and p[0][4:] in ("Gt", "GtE", "Lt", "LtE"):
+            # a convergence test compares magnitudes (abs / max / norm of a term); a counter compared with a bound is not one
+            if not any(I.atoms_named(v, pre) for pre in ("abs", "call:abs", "call:np.abs", "call:np.absolute", "call:np.fabs", "call:.max", "call:np.max",
+                                                         "call:np.amax", "call:np.linalg.norm", "call:la.norm")):
+                return None
             if self.left > 0:
                 self.left -= 1
                 return p[0][4:] in ("Gt", "GtE")
@@ -994,28 +1079,30 @@ def r4_siblings(ctx):
             ok = isinstance(got, F.Rat) and got.equals(w)
             verdict(ctx, ok, f"expmint_pow: after {K} terms {nm} is {'h^2 times ' if nm == 'I2' else ('h times ' if nm == 'I' else '')}"
                              "the partial sum of its documented series", fn, {"got": repr(got)[:300], "want": repr(w)[:300]}, [got])
-    # _geti2: power-series fallback and direct arm (order 13)
-    fn = ctx.src.func(EXPM, "_geti2")
+    # second integral on the order-13 route: the A^-1 formula when its consistency test passes, else the power series (evaluated as
+    # expmint reaches them, on the squared E and with the helper on A h)
+    fn = ctx.src.func(EXPM, "expmint")
     x = F.sym("x")
+    X = x * h
     for direct in (False, True):
-        it = Interp(ctx, EXPM, hook=scalar_hook(), oracle=Converge(K, {"np.allclose": direct, "isspmatrix": False}))
-        H = it.instantiate("_ExpmIntPadeHelper", [x], {"structure": None})
-        ret = it.call("_geti2", [H, Esym, Isym, h, F.const(13)])
-        if _aborted(ctx, "_geti2 (order 13, " + ("direct arm" if direct else "power series") + ") returns I2", fn, ret):
+        what = "A^-1 formula" if direct else "power series"
+        r = Run(ctx, "expmint", Fraction(10), geti2=True, follow_geti2=True, allclose=direct, converge=K)
+        if _aborted(ctx, f"expmint (order 13, second integral by the {what}) returns E, I, I2", fn, r.ret):
             continue
-        if not isinstance(ret, F.Rat):
-            ctx.error("_geti2 " + ("direct arm" if direct else "power series"), fn, repr(ret)[:300])
+        if not isinstance(r.ret, tuple) or len(r.ret) != 3 or not isinstance(r.ret[2], F.Rat) or not isinstance(r.ret[0], F.Rat):
+            ctx.error(f"expmint (order 13): second integral by the {what}", fn, repr(r.ret)[:300])
             continue
+        Eo, ret = r.ret[0], r.ret[2]
         if direct:
-            # with E = e^x: int_0^h t e^{At} dt = h^2 (x e^x - e^x + 1)/x^2
-            w = h * h * (x * Esym - Esym + 1) / (x * x)
+            # with E = e^X, X = A h: int_0^h t e^{At} dt = h^2 (X e^X - e^X + 1)/X^2
+            w = h * h * (X * Eo - Eo + 1) / (X * X)
             ok = ret.equals(w)
-            ctx.check(ok, "_geti2 direct arm equals h^2 (x e^x - e^x + 1)/x^2 with x = A h", fn, None if ok else {"got": repr(ret)[:300], "want": repr(w)})
+            verdict(ctx, ok, "second integral, A^-1 formula: h^2 (X E - E + 1)/X^2 with X = A h", fn, {"got": repr(ret)[:300], "want": repr(w)}, [ret])
         else:
-            w = h * h * _phi2_trunc(K)
+            w = h * h * _phi2_trunc(K).subs({"x": X})
             ok = ret.equals(w)
-            ctx.check(ok, f"_geti2 fallback: after {K} terms the result is h^2 times the partial sum of sum x^k/((k+2) k!)", fn,
-                      None if ok else {"got": repr(ret)[:300], "want": repr(w)[:300]})
+            verdict(ctx, ok, f"second integral, power series: after {K} terms the result is h^2 times the partial sum of sum X^k/((k+2) k!), X = A h", fn,
+                    {"got": repr(ret)[:300], "want": repr(w)[:300]}, [ret])
 
 
 # ------------------------------------------------------------------------------------------------------------ R5
@@ -1180,7 +1267,7 @@ FLOAT_DTYPES = {"float", "np.float64", "np.double", "np.float_", "np.longdouble"
                 "'float'", "'f8'", "'complex128'", "'complex'"}
 
 
-def _shape_of(v, shapes):
+def _shape_of(v, shapes, n=None):
     """shape of a value of getEPQ2 as a tuple of lengths: A (and A h) is n x n (a state matrix is square), an input matrix B (and B h)
     is n x i (one row per state), np.eye(k) is k x k, an allocated array has the shape it was allocated with, exp(M) the shape of M;
     a scalar multiple of one of those has its shape.  None when the value is none of these."""
@@ -1191,17 +1278,18 @@ def _shape_of(v, shapes):
     if nm is not None:
         if nm in shapes:
             return shapes[nm] if isinstance(shapes[nm], tuple) else None
+        n = F.sym("n") if n is None else n
         if nm == "A":
-            return (F.sym("n"), F.sym("n"))
+            return (n, n)
         if nm == "B":
-            return (F.sym("n"), F.sym("i"))
+            return (n, F.sym("i"))
         return None
     try:
         if isinstance(v, F.Rat) and v.d.is_const() and len(v.n.t) == 1:
             (mono, _c), = v.n.t.items()
             mats = [(a_, e_) for a_, e_ in mono if not (F.atom_desc(a_)[0] == "s" and F.atom_desc(a_)[1] == "h")]
             if len(mats) == 1 and mats[0][1] == 1 and (len(mono) > 1 or _c != 1):
-                return _shape_of(F.Rat(F.Poly.atom(mats[0][0])), shapes)
+                return _shape_of(F.Rat(F.Poly.atom(mats[0][0])), shapes, n)
     except Exception:  # noqa
         pass
     return None
@@ -1240,11 +1328,21 @@ def _covers(outer, inner):
     return True
 
 
-def _content(M, cells):
+UNINIT = "@uninitialised"
+READ_ONLY_CALLS = {"len", "getattr", "isinstance", "np.shape", "np.ndim", "np.size", "np.asarray", "np.asanyarray", "np.allclose", "np.isfinite", "np.any", "np.all",
+                   "np.linalg.norm", "la.norm", "abs", "np.abs", ".copy", ".max", ".min", ".sum", ".any", ".all", ".dot", "np.dot", ".astype", ".view", "id", "type"}
+
+
+def _content(M, cells, start=None):
     """what a freshly allocated all-zero array holds after the recorded stores, whatever their order and spelling: a list of
-    [selection, value, statement] over pairwise disjoint selections with non-zero values.  Second result: why that could not be decided
-    (a store whose selection is not resolved, or that may partly overlap an earlier one), else None."""
-    content = []
+    [selection, value, statement] over pairwise disjoint selections with non-zero values (`start`: what it holds to begin with, for an
+    array that is allocated without being cleared).  Second result: why that could not be decided (a store whose selection is not
+    resolved, or that may partly overlap an earlier one), else None."""
+    content = list(start or [])
+
+    def uninit(e):
+        return I.sym_name(e[1]) == UNINIT
+
     for base, ix, v, st, aug in cells:
         if not I.same_value(base, M):
             continue
@@ -1255,18 +1353,23 @@ def _content(M, cells):
             return content, f"a stored value could not be evaluated: {v!r}"[:300]
         same = [e for e in content if I.same_value(e[0], ix)]
         rest = [e for e in content if not I.same_value(e[0], ix)]
+        # a store inside a region that was never written leaves the remainder of that region unwritten
+        around = [e for e in rest if uninit(e) and _covers(e[0], ix)]
+        rest_w = [e for e in rest if not any(e is a_ for a_ in around)]
         if aug:
-            if any(not I.intervals_disjoint(e[0], ix) for e in rest):
+            if around or (same and uninit(same[0])):
+                return content, "an in-place update of a part of the array that was never written"
+            if any(not I.intervals_disjoint(e[0], ix) for e in rest_w):
                 return content, "an in-place update of a part of the array that may overlap an earlier store"
             v = _subs_atom(v, F.fn("idx", M, ix), same[0][1] if same else F.const(0))
-            if I.atoms_named(v, "idx") and any(I.same_value(a_[0], M) for _n, a_ in I.atoms_named(v, "idx") if a_ and isinstance(a_[0], F.Rat)):
-                return content, "a stored value read from the array itself"
         else:
-            covered = [e for e in rest if _covers(ix, e[0])]
-            rest = [e for e in rest if not any(e is c_ for c_ in covered)]
-            if any(not I.intervals_disjoint(e[0], ix) for e in rest):
+            covered = [e for e in rest_w if _covers(ix, e[0])]
+            rest_w = [e for e in rest_w if not any(e is c_ for c_ in covered)]
+            if any(not I.intervals_disjoint(e[0], ix) for e in rest_w):
                 return content, "a store that may partly overlap an earlier one"
-        content = rest + ([[ix, v, st]] if not (v.is_const() and v.is_zero()) else [])
+        if v.depends_on(I.sym_name(M) or "") or any(I.same_value(a_[0], M) for _n, a_ in I.atoms_named(v, "idx") if a_ and isinstance(a_[0], F.Rat)):
+            return content, "a stored value read from the array itself"
+        content = around + rest_w + ([[ix, v, st]] if not (v.is_const() and v.is_zero()) else [])
     return content, None
 
 
@@ -1287,29 +1390,23 @@ def r6_augmented(ctx):
                 if name in ("np.zeros", "np.empty") and (pos or "shape" in kw):
                     s = F.sym(f"buffer{len(bufs) + 1}")
                     sh = _as_shape(pos[0] if pos else kw["shape"])
-                    bufs[I.sym_name(s)] = (sh if sh is not None else (pos[0] if pos else kw["shape"]), pos[1] if len(pos) > 1 else kw.get("dtype"), node)
+                    bufs[I.sym_name(s)] = (sh if sh is not None else (pos[0] if pos else kw["shape"]), pos[1] if len(pos) > 1 else kw.get("dtype"), node,
+                                           name == "np.zeros")
                     shapes[I.sym_name(s)] = sh
                     return s
                 if name in ("np.eye", "np.identity") and 1 <= len(pos) <= 2 and set(kw) <= {"dtype"} \
                         and (len(pos) == 1 or I.same_value(to_rat(pos[0]), to_rat(pos[1]))):
                     return F.fn("eye", to_rat(pos[0]))
-                if name == "getattr" and pos[1] == "shape" and isinstance(pos[0], F.Rat):
-                    sh = it.shape(pos[0])
-                    return sh if sh is not None else NotImplemented
-                if name == "getattr" and pos[1] == "ndim" and isinstance(pos[0], F.Rat):
-                    sh = it.shape(pos[0])
-                    return F.const(len(sh)) if sh is not None else NotImplemented
-                if name in ("len", "np.size", "np.shape") and isinstance(pos[0] if pos else None, F.Rat):
-                    sh = it.shape(pos[0])
-                    if sh is None:
-                        return NotImplemented
-                    if name == "np.shape":
-                        return sh
-                    if name == "len":
-                        return sh[0] if sh else NotImplemented
-                    ax = pos[1] if len(pos) > 1 else kw.get("axis")
-                    if ax is not None and I.is_const(ax) and 0 <= int(I.cval(ax)) < len(sh):
-                        return sh[int(I.cval(ax))]
+                r = _shape_call(it, name, pos, kw)
+                if r is not NotImplemented:
+                    return r
+                if (name == "np.copyto" and len(pos) == 2 and not kw) or (name == ".fill" and len(pos) == 2 and not kw):
+                    # np.copyto(X[ix], V), X[ix].fill(v): the store X[ix] = V
+                    dst, src = pos
+                    if isinstance(dst, F.Rat) and not is_unknown(dst) and (I.sym_name(dst) in bufs or (fn_parts(dst) or ("",))[0] == "idx"):
+                        root, ix = it.subscript(dst, F.fn("slice", F.sym("None"), F.sym("None"), F.sym("None")))
+                        it.cells.append((clone(root), ix, clone(to_rat(src)), node, False))
+                        return None
                     return NotImplemented
                 if name == "_expm_SS":
                     em = F.sym("EM")
@@ -1317,8 +1414,10 @@ def r6_augmented(ctx):
                     return em
                 return NotImplemented
 
-            it = Interp(ctx, EXPM, hook=_ordered_hook(extra), erase=False)
-            it.shape_of = lambda v, shapes=shapes: _shape_of(v, shapes)
+            # the `half` option is defined for an even number of states, written 2 m: every spelling of "half of n" is then m
+            nval = 2 * F.sym("m") if half else F.sym("n")
+            it = Interp(ctx, EXPM, hook=_ordered_hook(_int_hook(extra)), erase=False)
+            it.shape_of = lambda v, shapes=shapes, nval=nval: _shape_of(v, shapes, nval)
             ret = it.call("getEPQ2", [A, h, F.const(order), Bval, half])
             call = _last(it.calls, "_expm_SS")
             tag = f"getEPQ2(order={order}; {rlabel})"
@@ -1331,13 +1430,22 @@ def r6_augmented(ctx):
             M = ca[0]
             mname = I.sym_name(M)
             if mname not in bufs:
+                # (not a violation: the matrix may be assembled by np.block / np.hstack, or _expm_SS may take its parameters in another order)
                 ctx.error(f"{tag}: augmented matrix", call.node, f"first argument of _expm_SS is not a freshly allocated array: {M!r}"[:200])
                 continue
-            shape, dtype, znode = bufs[mname]
+            shape, dtype, znode, cleared = bufs[mname]
             # dtype
             if dtype is None:
                 ctx.ok(f"{tag}: the augmented matrix is allocated with the default (float64) dtype", znode)
             else:
+                for _k in range(3):         # np.dtype(float), np.dtype("float64")
+                    p = fn_parts(dtype) if isinstance(dtype, F.Rat) else None
+                    if p is None or p[0] != "call:np.dtype" or len(p[1]) != 1:
+                        break
+                    nm_ = I.sym_name(p[1][0]) or ""
+                    dtype = Ref(nm_[1:]) if nm_.startswith("@") else (nm_[1:-1] if nm_[:1] in "'\"" else dtype)
+                    if isinstance(dtype, F.Rat):
+                        break
                 dn = dtype.name if isinstance(dtype, Ref) else (repr(dtype) if isinstance(dtype, str) else None)
                 if dn in FLOAT_DTYPES:
                     ctx.ok(f"{tag}: the augmented matrix is allocated as a floating array ({dn}), so it holds A h and B h whatever the dtypes of A, B, h", znode)
@@ -1369,7 +1477,20 @@ def r6_augmented(ctx):
             blocks = [("M[:n, :n]", "A * h", "A h in the leading block"), ("M[:r, n:n + i]", "B * h", "B h to the right of it")]
             if order == 1:
                 blocks += [("M[n:n + i, n + i:]", "np.eye(i)", "the identity coupling u and du")]
-            content, undecided = _content(M, it.cells)
+            whole = fn_parts(it.expr("M[:, :]", env))[1][1]
+            cr = _find_crash([x_ for c_ in it.cells if I.same_value(c_[0], M) for x_ in (c_[1], c_[2])])
+            if cr is not None:
+                ctx.fail(f"{tag}: the augmented matrix can be filled", znode, {"evaluation raises": cr.why})
+                continue
+            content, undecided = _content(M, it.cells, None if cleared else [[whole, F.sym(UNINIT), znode]])
+            # a library call that receives the array (or a part of it) before it is exponentiated may write into it: np.copyto, .fill, ...
+            for c_ in it.calls:
+                if c_.seq >= call.seq or isinstance(c_.callee, I.FuncV) or c_.name in READ_ONLY_CALLS or (c_.name in ("np.copyto", ".fill") and c_.result is None):
+                    continue
+                for a_ in list(c_.pos) + list(c_.kw.values()):
+                    p_ = fn_parts(a_) if isinstance(a_, F.Rat) else None
+                    if I.same_value(a_, M) or (p_ is not None and p_[0] == "idx" and I.same_value(p_[1][0], M)):
+                        undecided = undecided or f"the array is handed to {c_.name}, which may write into it"
             used = []
             for where_txt, val_txt, what in blocks:
                 wi = fn_parts(it.expr(where_txt, env))[1][1]
@@ -1385,8 +1506,11 @@ def r6_augmented(ctx):
                         {"array content": [(repr(c_[0])[:80], repr(c_[1])[:80]) for c_ in content]}, [c_[0] for c_ in content] + [c_[1] for c_ in content])
             others = [c_ for c_ in content if not any(c_ is u_ for u_ in used)]
             title = f"{tag}: every other element of the augmented matrix is zero"
+            zeroed = any(I.same_value(c_[0], M) and I.is_const(c_[2]) and to_rat(c_[2]).is_zero() for c_ in it.cells)
             if undecided is not None:
                 ctx.error(title, znode, undecided)
+            elif zeroed and any(I.sym_name(c_[1]) == UNINIT for c_ in others):
+                ctx.error(title, znode, "the array is allocated without being cleared and cleared piecewise: the rule cannot decide whether the pieces cover it")
             else:
                 verdict(ctx, not others, title, others[0][2] if others else znode,
                         {"also stored": [(repr(c_[0])[:80], repr(c_[1])[:80]) for c_ in others]}, [c_[1] for c_ in others])
@@ -1433,7 +1557,8 @@ MANIFEST = {
             "(R4) getEPQ1 == getEPQ_pow in P,Q construction for B given / half, power-series partial sums, direct I2 formula; "
             "(R5) SSModel.c2d/d2c per method (zoh, zoha, foh, tustin with and without prewarp): the discrete transfer function is the exactly sampled one for the "
             "stated hold / the bilinear substitution of the continuous one, d2c(c2d(s)) = s, in the scalar image; conversions do not update retained arrays in place; "
-            "(R6) getEPQ2's augmented matrix: blocks, floating dtype, partition of exp(M) into E, P, Q. "
+            "(R6) getEPQ2's augmented matrix: shape, content (which rows / columns hold A h, B h, I; everything else zero, whatever the spelling or order "
+            "of the stores), floating dtype, partition of exp(M) into E, P, Q by the rows / columns read. "
             "Not decided: floating-point accuracy, scipy's norm estimates and solves, conditioning, the block structure of _ExpmPadeHelper_SS beyond its scalar image.",
     "note": "Trusted: CPython ast; exact Fraction arithmetic; scipy's _ExpmPadeHelper.pade7/pade9 are taken to be the diagonal Pade approximants (library). "
             "The matrix polynomial identities are checked through the scalar homomorphism A -> x (sound for polynomials in one matrix).",
